@@ -112,7 +112,7 @@ def load_known():
         return json.load(f)
 
 
-def match_known(known, prop, obligation, case):
+def match_known(known, prop, obligation, case, detail=""):
     for k in known:
         if k.get("status") != "finding" or k.get("property") != prop:
             continue
@@ -121,11 +121,12 @@ def match_known(known, prop, obligation, case):
         where = k.get("where")
         if where:
             try:
+                # `case` and `detail` live in the globals of the expression so that generator expressions see them
                 if not eval(where, {"__builtins__": {"len": len, "min": min, "max": max, "abs": abs,
                                                      "any": any, "all": all, "tuple": tuple, "str": str,
                                                      "isinstance": isinstance, "list": list, "int": int,
-                                                     "float": float}},
-                            {"case": case or {}}):
+                                                     "float": float},
+                                    "case": case or {}, "detail": str(detail or "")}):
                     continue
             except Exception:  # noqa: BLE001
                 continue
@@ -307,7 +308,7 @@ def main(argv=None):
     printed = set()
     nviol = 0
     for v in violations:
-        k = match_known(known, prop, v["obligation"], v.get("case"))
+        k = match_known(known, prop, v["obligation"], v.get("case"), v.get("detail"))
         if k is not None:
             key = ("K", k.get("obligation"), k.get("where"))
             if key not in printed:
@@ -331,7 +332,7 @@ def main(argv=None):
 
     if os.environ.get("VERIF_DUMP_VIOLATIONS"):
         with open(os.environ["VERIF_DUMP_VIOLATIONS"], "w") as f:
-            json.dump([dict(obligation=v["obligation"], case=v.get("case"), detail=str(v["detail"])[:300]) for v in violations], f, indent=0, default=str)
+            json.dump([dict(obligation=v["obligation"], case=v.get("case"), detail=str(v["detail"])[:1500]) for v in violations], f, indent=0, default=str)
 
     # ---- 5. evidence --------------------------------------------------------------------
     bmod = b["module"] if b else None
